@@ -486,10 +486,18 @@ func ruleWhoWritesFiles(c *Ctx, rule string) {
 // ruleSpliceLoop implements C06.R4.
 func ruleSpliceLoop(c *Ctx, rule string) {
 	r := c.R
-	fn := c.Fn("engine", "searchReplace")
 	wa := c.Method("files", "Writer", "WriteAt")
-	if fn == nil || wa == nil {
-		r.Ob(rule, "anchor engine.searchReplace / files.(*Writer).WriteAt", "").Und("not found")
+	if wa == nil {
+		r.Ob(rule, "anchor files.(*Writer).WriteAt", "").Und("not found")
+		return
+	}
+	// by role: the function of package engine that writes the output (calls WriteAt)
+	var fn *ssa.Function
+	for _, f := range c.callersIn("engine", wa) {
+		fn = f
+	}
+	if fn == nil {
+		r.Ob(rule, "anchor: the function that writes the replaced text", "").Und("no function of package engine calls Writer.WriteAt")
 		return
 	}
 	writes := callsTo(fn, wa)
@@ -509,45 +517,55 @@ func ruleSpliceLoop(c *Ctx, rule string) {
 	}
 	sort.Slice(inLoop, func(i, j int) bool { return instrDominates(inLoop[i], inLoop[j]) })
 	w1, w2 := inLoop[0], inLoop[1]
-	norm := func(s string) string {
-		s = strings.ReplaceAll(s, "φreplacedMatches", "replacedMatches")
-		s = strings.ReplaceAll(s, "φreplaceReader", "RR")
-		s = strings.ReplaceAll(s, "replaceReader", "RR")
-		return s
-	}
-	off1, dat1 := norm(exprStr(w1.Call.Args[1])), norm(exprStr(w1.Call.Args[2]))
-	off2, dat2 := norm(exprStr(w2.Call.Args[1])), norm(exprStr(w2.Call.Args[2]))
-	// loop-carried cursors: phis at the loop header used as w1's offset and as the ReadAt position
+	// loop-carried cursors: the write cursor is the offset of the first WriteAt, the read cursor is the position of the ReadAt
 	cw, okcw := w1.Call.Args[1].(*ssa.Phi)
 	if !okcw {
-		ob.Bad("the first WriteAt does not write at the loop-carried write cursor but at " + off1)
+		ob.Bad("the first WriteAt does not write at the loop-carried write cursor but at " + exprStr(w1.Call.Args[1]))
 		return
 	}
-	CW := "φ" + cw.Comment
-	var lr *ssa.Phi
-	var gapLen string
-	if rdCall, ok := w1.Call.Args[2].(*ssa.Call); ok && len(rdCall.Call.Args) == 3 {
-		gapLen = norm(exprStr(rdCall.Call.Args[1]))
-		lr, _ = rdCall.Call.Args[2].(*ssa.Phi)
-	}
-	if lr == nil {
-		ob.Bad("the gap written first is not ReadAt(length, read cursor) of the reader: " + dat1)
+	rdCall, okrd := w1.Call.Args[2].(*ssa.Call)
+	if !okrd || len(rdCall.Call.Args) != 3 || !strings.HasPrefix(rdCall.Call.StaticCallee().Name(), "ReadAt") {
+		ob.Bad("the gap written first is not ReadAt(length, read cursor) of the reader: " + exprStr(w1.Call.Args[2]))
 		return
 	}
-	LR := "φ" + lr.Comment
+	lr, oklr := rdCall.Call.Args[2].(*ssa.Phi)
+	if !oklr {
+		ob.Bad("the gap is not read at the loop-carried read cursor but at " + exprStr(rdCall.Call.Args[2]))
+		return
+	}
+	CW, LR := "φ"+cw.Comment, "φ"+lr.Comment
+	// the current element E: the gap length must be E.Offset.Start - LR
+	gapTerms, gapK := linear(rdCall.Call.Args[1], nil)
+	elem := ""
+	for t, k := range gapTerms {
+		if k == 1 && strings.HasSuffix(t, ".Offset.Start") {
+			elem = strings.TrimSuffix(t, ".Offset.Start")
+		}
+	}
+	rrName := exprStr(rdCall.Call.Args[0])
+	rename := func(x string) string {
+		x = strings.ReplaceAll(x, rrName, "RR")
+		x = strings.ReplaceAll(x, "φreplaceReader", "RR")
+		x = strings.ReplaceAll(x, "replaceReader", "RR")
+		if elem != "" {
+			x = strings.ReplaceAll(x, elem, "ELEM")
+		}
+		x = strings.ReplaceAll(x, CW, "CW")
+		x = strings.ReplaceAll(x, LR, "LR")
+		return x
+	}
+	norm := rename
 	var problems []string
-	wantGap := "(replacedMatches[φi].Offset.Start - " + LR + ")"
-	if gapLen != wantGap {
-		problems = append(problems, "gap length is "+gapLen+", expected "+wantGap)
+	if elem == "" || gapK != 0 || linearString(rdCall.Call.Args[1], rename) != "+ELEM.Offset.Start -LR" {
+		problems = append(problems, "the gap length is ["+linearString(rdCall.Call.Args[1], rename)+"], expected the match's Offset.Start minus the read cursor")
 	}
-	if dat1 != "RR.ReadAt("+gapLen+", "+LR+")" {
-		problems = append(problems, "gap data is "+dat1)
+	if got := linearString(w2.Call.Args[1], rename); got != "+CW +ELEM.Offset.Start -LR" {
+		problems = append(problems, "the replacement is written at ["+got+"], expected write cursor + gap length")
 	}
-	if off2 != "("+CW+" + "+gapLen+")" {
-		problems = append(problems, "the replacement is written at "+off2+", expected "+CW+" + gap length")
+	repl := rename(exprStr(w2.Call.Args[2]))
+	if repl != `ELEM.Replacement.GetValueOrDefault("")` {
+		problems = append(problems, "the text written for a match is "+repl+", expected its Replacement")
 	}
-	repl := dat2
-	// back edges
 	backVals := func(p *ssa.Phi) []string {
 		var out []string
 		for i, e := range p.Edges {
@@ -565,7 +583,7 @@ func ruleSpliceLoop(c *Ctx, rule string) {
 						}
 						return
 					}
-					out = append(out, norm(exprStr(v)))
+					out = append(out, linearString(v, rename))
 				}
 				walk(e)
 			}
@@ -573,19 +591,18 @@ func ruleSpliceLoop(c *Ctx, rule string) {
 		sort.Strings(out)
 		return uniq(out)
 	}
-	wantCW := "((" + CW + " + " + gapLen + ") + len(" + repl + "))"
-	wantLR := "((" + LR + " + " + gapLen + ") + len(replacedMatches[φi].Value))"
-	if got := backVals(cw); len(got) != 1 || got[0] != wantCW {
-		problems = append(problems, fmt.Sprintf("the write cursor becomes %v on the back edge, expected %s (gap plus the very text that was written)", got, wantCW))
+	wantCW := `+CW +ELEM.Offset.Start -LR +len(` + repl + `)`
+	wantLR := "+ELEM.Offset.Start +len(ELEM.Value)"
+	sortTerms := func(x string) string { f := strings.Fields(x); sort.Strings(f); return strings.Join(f, " ") }
+	if got := backVals(cw); len(got) != 1 || sortTerms(got[0]) != sortTerms(wantCW) {
+		problems = append(problems, fmt.Sprintf("the write cursor becomes %v on the back edge, expected [%s] (gap plus the very text that was written)", got, wantCW))
 	}
-	if got := backVals(lr); len(got) != 1 || got[0] != wantLR {
-		problems = append(problems, fmt.Sprintf("the read cursor becomes %v on the back edge, expected %s (gap plus the matched text)", got, wantLR))
+	if got := backVals(lr); len(got) != 1 || sortTerms(got[0]) != sortTerms(wantLR) {
+		problems = append(problems, fmt.Sprintf("the read cursor becomes %v on the back edge, expected [%s] (the end of the matched text)", got, wantLR))
 	}
-	if !strings.Contains(repl, ".Replacement.GetValueOrDefault(\"\")") {
-		problems = append(problems, "the text written for a match is "+repl+", expected its Replacement")
-	}
+	off2 := linearString(w2.Call.Args[1], rename)
 	if len(problems) == 0 {
-		ob.OKnt(fmt.Sprintf("WriteAt(%s, gap); WriteAt(%s, replacement); cursors advance by gap+len(replacement) and gap+len(match) on every path around the loop", CW, off2))
+		ob.OKnt(fmt.Sprintf("WriteAt(CW, gap); WriteAt([%s], replacement); on every path around the loop the write cursor advances by gap+len(replacement) and the read cursor moves to the end of the match", off2))
 	} else {
 		ob.Bad(strings.Join(problems, "; "))
 	}
@@ -609,21 +626,79 @@ func ruleSpliceLoop(c *Ctx, rule string) {
 			}
 		}
 		d := norm(exprStr(tail.Call.Args[2]))
-		okTail := len(conds) == 1 && conds[0] == "("+LR+" < RR.Size())" && exprStr(tail.Call.Args[1]) == CW &&
-			(d == "RR.ReadAt((reader.Size() - "+LR+"), "+LR+")" || d == "RR.ReadAt((RR.Size() - "+LR+"), "+LR+")")
-		ob2.Check(okTail, "WriteAt("+CW+", "+d+") under "+strings.Join(conds, " && "), fmt.Sprintf("tail copy is WriteAt(%s, %s) under %v; expected the rest of the input from the read cursor, written at the write cursor, when the read cursor is short of the size", exprStr(tail.Call.Args[1]), d, conds))
+		okData := false
+		if trd, ok := tail.Call.Args[2].(*ssa.Call); ok && len(trd.Call.Args) == 3 && norm(exprStr(trd.Call.Args[0])) == "RR" && norm(exprStr(trd.Call.Args[2])) == "LR" {
+			// the length: (total size) - read cursor, where the total size is a Size() call on a reader or a parameter that callers fill with one
+			terms, k := linear(trd.Call.Args[1], norm)
+			if k == 0 && len(terms) == 2 && terms["LR"] == -1 {
+				for t, coef := range terms {
+					if t == "LR" || coef != 1 {
+						continue
+					}
+					if strings.HasSuffix(t, ".Size()") {
+						okData = true
+					}
+					for i, p := range fn.Params {
+						if p.Name() == t {
+							okData = true
+							for _, caller := range c.callersIn("engine", fn) {
+								for _, cl := range callsTo(caller, fn) {
+									if i < len(cl.Call.Args) && !strings.HasSuffix(exprStr(cl.Call.Args[i]), ".Size()") {
+										okData = false
+									}
+								}
+							}
+						}
+					}
+				}
+			}
+		}
+		okTail := len(conds) == 1 && conds[0] == "(LR < RR.Size())" && norm(exprStr(tail.Call.Args[1])) == "CW" && okData
+		ob2.Check(okTail, "WriteAt(CW, "+d+") under "+strings.Join(conds, " && "), fmt.Sprintf("tail copy is WriteAt(%s, %s) under %v; expected the rest of the input from the read cursor, written at the write cursor, when the read cursor is short of the size", norm(exprStr(tail.Call.Args[1])), d, conds))
 		ob2.Nontrivial = true
 	}
 	ob3 := r.Ob(rule, "searchReplace: the writer is closed on every path", c.pos(fn.Pos()))
 	wc := c.Method("files", "Writer", "Close")
-	pd := NewPostDom(fn)
-	okClose := false
-	for _, call := range callsTo(fn, wc) {
-		if pd.PostDominates(call.Block(), w1.Block()) {
-			okClose = true
+	closedAfter := func(f *ssa.Function, after ssa.Instruction, writer ssa.Value) bool {
+		pd := NewPostDom(f)
+		for _, call := range callsTo(f, wc) {
+			if pd.PostDominates(call.Block(), after.Block()) && traceAddr(call.Call.Args[0]).Root == traceAddr(writer).Root {
+				return true
+			}
+			// the writer variable may be a phi of the mode arms: compare rendered names
+			if pd.PostDominates(call.Block(), after.Block()) && exprStr(call.Call.Args[0]) == exprStr(writer) {
+				return true
+			}
 		}
+		return false
 	}
-	ob3.Check(okClose, "writer.Close() post-dominates the splice loop", "writer.Close() does not post-dominate the writes: output may never be flushed or the descriptor leaks")
+	okClose := false
+	wv := w1.Call.Args[0]
+	if prm, isParam := wv.(*ssa.Parameter); isParam {
+		// the splice helper received the writer: its caller must close it after the call
+		idx := -1
+		for i, p := range fn.Params {
+			if p == prm {
+				idx = i
+			}
+		}
+		okClose = idx >= 0
+		ncall := 0
+		for _, caller := range c.callersIn("engine", fn) {
+			for _, cl := range callsTo(caller, fn) {
+				ncall++
+				if !closedAfter(caller, cl, cl.Call.Args[idx]) {
+					okClose = false
+				}
+			}
+		}
+		if ncall == 0 {
+			okClose = false
+		}
+	} else {
+		okClose = closedAfter(fn, w1, wv)
+	}
+	ob3.Check(okClose, "writer.Close() post-dominates the splice", "writer.Close() does not post-dominate the writes: output may never be flushed or the descriptor leaks")
 	ob3.Nontrivial = true
 }
 
